@@ -156,7 +156,7 @@ pub fn record(mode: &str, seed: u64, n: usize, out: &mut Out) {
             Err(_) => json!({"v": "panic"}),
         };
         out.calls += 1;
-        out.emit(json!({"op": "manyids", "n": n_ids, "res": res}), true);
+        if mode == "scan" { out.emit(json!({"op": "manyids", "n": n_ids, "res": res}), true); }
     }
     for _ in 0..n {
         let sh = r.coin();
@@ -202,7 +202,13 @@ pub fn record(mode: &str, seed: u64, n: usize, out: &mut Out) {
         let c2 = c1 + r.below((nm - c1) as u64 + 1) as usize;
         out.calls += 5;
         let sched = crate::reader::random_sched(&mut r);
-        out.emit(stats_event(&stream, sh, &bounds, c1, c2, &sched), nm >= 2);
+        let mut e = stats_event(&stream, sh, &bounds, c1, c2, &sched);
+        if mode == "visit14" || mode == "visit19" {
+            // the same scan, looked at for one thing only: the header flags (C14) resp. the ids (C19) the visitor is handed
+            e["op"] = json!(mode);
+            if let Some(o) = e["res"].as_object_mut() { o.remove("result"); o.remove("parts"); o.remove("merged"); }
+        }
+        out.emit(e, nm >= 2);
     }
 }
 pub fn rerun(ev: &J) -> J {
